@@ -69,6 +69,11 @@ func (p Payload) Bytes() []byte {
 		return b
 	case "text":
 		return []byte(fmt.Sprintf("payload-%d-%s", p.Seed, strings.Repeat("x", p.N)))
+	case "framing":
+		// bytes that look like the framing of the upload protocols: line breaks at both ends, a multipart delimiter,
+		// a part header, a gzip magic number
+		return []byte([]string{"\r\n", "x\r\n", "\r\nx", "\n", "line1\r\nline2\r\n", "--", "\r\n--boundary--\r\n", "\r\n--x\r\nContent-Type: a/b\r\n\r\ny",
+			"\x1f\x8b\x08\x00", "a\r\n\r\n", "{\"name\":\"zz\"}", "\r", " \t "}[p.Seed%13] + strings.Repeat("\r\n", p.N%3))
 	case "big":
 		n := p.N
 		if n == 0 {
@@ -103,6 +108,10 @@ type Op struct {
 	Meta   map[string]string `json:"meta,omitempty"`
 	Conds  Conds             `json:"conds,omitempty"`
 	Chunks []Chunk           `json:"chunks,omitempty"`
+	// RetryFinal: after a resumable upload was rejected for its declared MD5, send the finalisation once more.
+	RetryFinal bool `json:"retryfinal,omitempty"`
+	// EmptyMeta: send "metadata": {} (present but empty) when Meta is empty.
+	EmptyMeta bool `json:"emptymeta,omitempty"`
 
 	Form     string `json:"form,omitempty"`     // get: json | download | public
 	RawSlash bool   `json:"rawslash,omitempty"` // get: leave '/' in the name unescaped
@@ -121,6 +130,9 @@ type Op struct {
 	Max    string `json:"max,omitempty"`
 	Token  string `json:"token,omitempty"` // list: malformed token to send ("" = follow real tokens)
 }
+
+// BadNumbers: precondition values that are not decimal integers.
+var BadNumbers = []string{"abc", "0x0", "0b10", "0o7", "1_0", "0x1F", " 1", "1 ", "1.0", "1e3", "\uff11", "9223372036854775808", "0X0"}
 
 // ---------------------------------------------------------------- model
 
@@ -254,6 +266,10 @@ func (m *Model) evalConds(c Conds, b, n string) condEval {
 		case "num":
 			return strconv.FormatInt(x.N, 10), x.N, true
 		case "bad":
+			if x.N > 0 {
+				// not decimal integers, although a lenient parser (base prefixes, digit separators, blanks) reads some as numbers
+				return BadNumbers[int(x.N)%len(BadNumbers)], 0, false
+			}
 			if isGen {
 				return "abc", 0, false
 			}
